@@ -145,8 +145,9 @@ def schemaOf (name : String) (c : Ctx) : Option PSchema :=
   | "packet.CustomClickActionPacket" => some { body := .unit, tail := .rest none }
   | "packet.CustomReportDetails" => some   -- a Go map: duplicate keys collapse, order is not kept
       { body := .arr .empty none (seqs [string, string]), vals := false }
-  | "packet.ServerLinks" => some <| mk <| .arr .err (some 128) <|
-      swL (.uint 1) [seqs [component p, string]] (seqs [varint, string])   -- bool `known id`: 0 = custom name
+  | "packet.ServerLinks" => some          -- bool `known id`: 0 = custom name (Go keeps only true/false of the byte)
+      { body := .arr .err (some 128) <| swL (.uint 1) [seqs [component p, string]] (seqs [varint, string]),
+        vals := false }
   | "packet.DialogClear" => some <| mk .unit
   | "packet.DialogShow" => some <| mk <|
       if c.state = 2 then nbt (decide (p < Minecraft_1_20_2))
@@ -185,10 +186,11 @@ def schemaOf (name : String) (c : Ctx) : Option PSchema :=
   | "packet.SoundEntityPacket" => some <| mk <| seqs [
       swL .varint [seqs [P .minKey, .opt true f32]] .unit,                    -- sound id 0 = named sound
       soundSource p, varint, f32, f32, i64]
-  | "packet.StopSoundPacket" => some <| mk <|
-      .sw (.uint 1) 256 (fun flags => seqs [
-        if flags.val % 2 = 1 then soundSource p else .unit,
-        if (flags.val / 2) % 2 = 1 then key else .unit]) .unit
+  | "packet.StopSoundPacket" => some   -- Go keeps only bits 0 and 1 of the flags byte (as two pointers)
+      { body := .sw (.uint 1) 256 (fun flags => seqs [
+          if flags.val % 2 = 1 then soundSource p else .unit,
+          if (flags.val / 2) % 2 = 1 then key else .unit]) .unit,
+        vals := false }
   | "bossbar.BossBar" => some <| mk <| seqs [uuid,
       swL .varint [
         seqs [component p, f32, varint, varint, u8],   -- add
@@ -211,7 +213,9 @@ def schemaOf (name : String) (c : Ctx) : Option PSchema :=
       [str (if c.dir = clientBound then 262144 else if p ≥ Minecraft_1_11 then 256 else 100)],
       onlyIf (c.dir = clientBound ∧ p ≥ Minecraft_1_8) [u8],
       onlyIf (c.dir = clientBound ∧ p ≥ Minecraft_1_16) [uuid]]
-  | "chat.SystemChat" => some <| mk <| seqs [component p, if p ≥ Minecraft_1_19_1 then bool else varint]
+  | "chat.SystemChat" => some            -- below 1.19.1 Go narrows the VarInt type to a byte-sized MessageType
+      { body := seqs [component p, if p ≥ Minecraft_1_19_1 then bool else varint],
+        vals := decide (p ≥ Minecraft_1_19_1) }
   | "chat.ChatAcknowledgement" => some <| mk varint
   | "chat.SessionPlayerChat" => some <| mk <|
       seqs [str 256, i64, i64, .opt true (P (.fixed 256)), lastSeen p]
